@@ -261,6 +261,35 @@ pub fn run(tier: &str) -> i32 {
         v.push(c);
         modules.push((format!("single={}", c.name), v));
     }
+    // declaration order: all constants reversed (non-scalar ones first), and every permutation of a mixed set of
+    // three scalar and two non-scalar constants (a skipped constant must not disturb its neighbours)
+    {
+        let mut v = accepted.clone();
+        v.reverse();
+        modules.push(("all-reversed".into(), v));
+        let mut alt: Vec<&ConstCase> = vec![];
+        let (ns, sc): (Vec<&ConstCase>, Vec<&ConstCase>) = accepted.iter().copied().partition(|c| c.expect.is_none());
+        for (i, c) in sc.iter().enumerate() {
+            if !ns.is_empty() && i % 3 == 0 {
+                let n = ns[(i / 3) % ns.len()];
+                if !alt.iter().any(|a| a.name == n.name) {
+                    alt.push(n);
+                }
+            }
+            alt.push(c);
+        }
+        // references must follow their base in WGSL? no: module-scope declarations may be used before they are declared
+        modules.push(("all-interleaved".into(), alt));
+        let pick = |name: &str| accepted.iter().copied().find(|c| c.name == name);
+        let set: Vec<&ConstCase> = ["maxLights", "NS_VEC", "ARITH_F_NEGZERO", "NS_ZERO_ARR", "CMP_LT"].iter().filter_map(|n| pick(n)).collect();
+        if set.len() != 5 {
+            machinery("C15: the mixed permutation set is incomplete");
+        }
+        for perm in wgslgen::permutations(set.len()) {
+            let v: Vec<&ConstCase> = perm.iter().map(|i| set[*i]).collect();
+            modules.push((format!("perm={perm:?}"), v));
+        }
+    }
     let cfg = Config::default();
     let mut probe_cases = vec![];
     let mut probe_index: BTreeMap<String, usize> = BTreeMap::new();
